@@ -79,7 +79,8 @@ TRUSTED_BASE = [
     "harness from a reference clustering; the theorems hold for every choice",
     "harness encoders harness/props/C13.py (attribute interning, half-unit bond orders, pool indices)",
 ]
-ASSUMPTIONS = ["items are networkx Graphs (not GML rule strings: the 'mod' backend is not installed)",
+ASSUMPTIONS = ["list-valued pre-grouping attributes may be given as lists or tuples (both read as multisets, /repo 6f9daf3 + b9f48de)",
+               "items are networkx Graphs (not GML rule strings: the 'mod' backend is not installed)",
                "the pre-grouping attribute is None (attribute_key=None), a str, or a list of ints (an int raises TypeError in GraphCluster)",
                "starting templates are consistent: isomorphic representatives carry the same class",
                "non-empty data lists (iterative_cluster reads rules[0])",
